@@ -1,46 +1,65 @@
 /-
-  C14 helper: a generic invariant principle for the PyNs evaluator. Every change the evaluator
-  makes to the non-heap part of the state goes through `storeName` / `storeGlobal`; so a predicate
-  that survives those two and ignores the heap survives every expression.
+  C14 helper: a generic invariant principle for the PyNs evaluator. Under the two arrangements the
+  code runs with NOW (`.evalFixed`: the `_EvalNamespace` of a `!py` evaluation, `.exec`: the dict of a
+  py step) — whichever of them the running code started in, and whatever function / generator objects
+  of EARLIER runs it calls or pulls (their bodies run under the arrangement of the namespace object
+  that made them, `target`) — every change the evaluator makes to the state is one of: a heap write,
+  a change of the own dict of some namespace object (`setOwn`), a switch of the current namespace
+  (`cur`). So a predicate that survives those three survives every expression.
 -/
 import PypyrModel.PyNs
 
 namespace Pypyr.PyNs
 
-/-- `P` is stable under everything an expression can do to the state under arrangement `a`. -/
-structure Inv (a : Arr) (P : St → Prop) : Prop where
+/-- `P` is stable under everything an expression can do to the state under the live arrangements. -/
+structure Inv (P : St → Prop) : Prop where
   heap : ∀ st h, P st → P { st with heap := h }
-  sName : ∀ st x v, P st → P (storeName a st x v)
-  sGlobal : ∀ st x v, P st → P (storeGlobal a st x v)
+  cur : ∀ st k, P st → P (st.setCur k)
+  own : ∀ st e, P st → P (st.setOwn e)
 
-variable {a : Arr} {P : St → Prop}
+/-- The arrangements of the code as it is now. -/
+def Arr.live (a : Arr) : Prop := a = .evalFixed ∨ a = .exec
 
-theorem Inv.alloc (h : Inv a P) (st : St) (c : Cell) (hp : P st) : P (st.alloc c).2 := h.heap st _ hp
-theorem Inv.heapSet (h : Inv a P) (st : St) (r : Nat) (c : Cell) (hp : P st) : P (st.heapSet r c) := h.heap st _ hp
+theorem Arr.live_evalFixed : Arr.live .evalFixed := Or.inl rfl
+theorem Arr.live_exec : Arr.live .exec := Or.inr rfl
 
-theorem Inv.frameSet (h : Inv a P) (st : St) (r : Nat) (x : String) (v : V) (hp : P st) : P (st.frameSet r x v) := by
+variable {P : St → Prop}
+
+theorem Inv.alloc (h : Inv P) (st : St) (c : Cell) (hp : P st) : P (st.alloc c).2 := h.heap st _ hp
+theorem Inv.heapSet (h : Inv P) (st : St) (r : Nat) (c : Cell) (hp : P st) : P (st.heapSet r c) := h.heap st _ hp
+
+theorem Inv.frameSet (h : Inv P) (st : St) (r : Nat) (x : String) (v : V) (hp : P st) : P (st.frameSet r x v) := by
   unfold St.frameSet; split
   · exact h.heapSet _ _ _ hp
   · exact hp
 
-theorem Inv.clsSet (h : Inv a P) (st : St) (r : Nat) (x : String) (v : V) (hp : P st) : P (st.clsSet r x v) := by
+theorem Inv.clsSet (h : Inv P) (st : St) (r : Nat) (x : String) (v : V) (hp : P st) : P (st.clsSet r x v) := by
   unfold St.clsSet; split
   · exact h.heapSet _ _ _ hp
   · exact hp
 
-theorem Inv.store' (h : Inv a P) (sc : Scope) (st : St) (x : String) (v : V) (hp : P st) : P (store a sc st x v) := by
+theorem Inv.sName (h : Inv P) {a : Arr} (ha : a.live) (st : St) (x : String) (v : V) (hp : P st) :
+    P (storeName a st x v) := by
+  rcases ha with ha | ha <;> subst ha <;> exact h.own _ _ hp
+
+theorem Inv.sGlobal (h : Inv P) {a : Arr} (ha : a.live) (st : St) (x : String) (v : V) (hp : P st) :
+    P (storeGlobal a st x v) := by
+  rcases ha with ha | ha <;> subst ha <;> exact h.own _ _ hp
+
+theorem Inv.store' (h : Inv P) {a : Arr} (ha : a.live) (sc : Scope) (st : St) (x : String) (v : V) (hp : P st) :
+    P (store a sc st x v) := by
   unfold PyNs.store
   split
   · exact h.frameSet _ _ _ _ hp
-  · exact h.sGlobal _ _ _ hp
+  · exact h.sGlobal ha _ _ _ hp
   · split
     · split
-      · exact h.sGlobal _ _ _ hp
-      · exact h.sName _ _ _ hp
-    · exact h.sGlobal _ _ _ hp
+      · exact h.sGlobal ha _ _ _ hp
+      · exact h.sName ha _ _ _ hp
+    · exact h.sGlobal ha _ _ _ hp
     · exact h.clsSet _ _ _ _ hp
 
-theorem Inv.doAppend' (h : Inv a P) (st : St) (t w : V) (hp : P st) : P (doAppend st t w) := by
+theorem Inv.doAppend' (h : Inv P) (st : St) (t w : V) (hp : P st) : P (doAppend st t w) := by
   unfold PyNs.doAppend
   split
   · split
@@ -48,29 +67,69 @@ theorem Inv.doAppend' (h : Inv a P) (st : St) (t w : V) (hp : P st) : P (doAppen
     · exact hp
   · exact hp
 
+theorem Inv.doSetItem' (h : Inv P) (st : St) (t : V) (i : Nat) (w : V) (hp : P st) : P (doSetItem st t i w).2 := by
+  unfold PyNs.doSetItem
+  repeat' split
+  all_goals first | exact hp | exact h.heapSet _ _ _ hp
+
+theorem Inv.nsopApply' (h : Inv P) (a : Arr) (st : St) (m : NsMeth) (k : String) (w : V) (hp : P st) :
+    P (nsopApply a st m k w).2 := by
+  unfold PyNs.nsopApply
+  split
+  · exact h.own _ _ hp
+  · exact h.own _ _ hp
+  · exact hp
+
+/-- Code entered from a live arrangement runs under a live arrangement. -/
+theorem target_live {a a' : Arr} (ha : a.live) (st : St) (j : Nat) (h : target a st j = some a') : a'.live := by
+  unfold target at h
+  split at h
+  · cases h; exact ha
+  · split at h
+    · split at h
+      · cases h
+      · split at h
+        · cases h; exact Arr.live_evalFixed
+        · cases h; exact Arr.live_exec
+        · cases h
+    · cases h
+
 theorem step {β : Type} {f : β × St} {r : β} {st' : St} (heq : f = (r, st')) (hp : P f.2) : P st' := by
   rw [heq] at hp; exact hp
 
-/-- The six mutually recursive evaluators preserve an invariant. -/
-theorem eval_inv (h : Inv a P) : ∀ fuel,
-    (∀ sc e st, P st → P (evalExpr a fuel sc e st).2) ∧
-    (∀ sc es st, P st → P (evalList a fuel sc es st).2) ∧
-    (∀ sc cs st, P st → P (evalConds a fuel sc cs st).2) ∧
-    (∀ sc fr elt t cs rest src i acc st, P st → P (compLoop a fuel sc fr elt t cs rest src i acc st).2) ∧
-    (∀ ex bs vf vs st, P st → P (callFn a fuel ex bs vf vs st).2) ∧
-    (∀ sc body st, P st → P (runBody a fuel sc body st).2) := by
+/-- The nine mutually recursive evaluators preserve an invariant. -/
+theorem eval_inv (h : Inv P) : ∀ fuel,
+    (∀ a, a.live → ∀ sc e st, P st → P (evalExpr a fuel sc e st).2) ∧
+    (∀ a, a.live → ∀ sc es st, P st → P (evalList a fuel sc es st).2) ∧
+    (∀ a, a.live → ∀ sc cs st, P st → P (evalConds a fuel sc cs st).2) ∧
+    (∀ a, a.live → ∀ sc fr elt t cs rest src i acc st, P st → P (compLoop a fuel sc fr elt t cs rest src i acc st).2) ∧
+    (∀ a, a.live → ∀ ex vf vs st, P st → P (callFn a fuel ex vf vs st).2) ∧
+    (∀ a, a.live → ∀ sc body st, P st → P (runBody a fuel sc body st).2) ∧
+    (∀ a, a.live → ∀ sc fr elt cls stack st, P st → P (genLoop a fuel sc fr elt cls stack st).2) ∧
+    (∀ a, a.live → ∀ r st, P st → P (pullGen a fuel r st).2) ∧
+    (∀ a, a.live → ∀ r acc st, P st → P (drainGen a fuel r acc st).2) := by
   intro fuel
   induction fuel with
   | zero =>
-    refine ⟨?_, ?_, ?_, ?_, ?_, ?_⟩ <;> intros <;> simp only [evalExpr, evalList, evalConds, compLoop, callFn, runBody] <;> assumption
+    refine ⟨?_, ?_, ?_, ?_, ?_, ?_, ?_, ?_, ?_⟩ <;> intros <;>
+      simp only [evalExpr, evalList, evalConds, compLoop, callFn, runBody, genLoop, pullGen, drainGen] <;> assumption
   | succ n ih =>
-    obtain ⟨ihE, ihL, ihC, ihLoop, ihCall, ihBody⟩ := ih
+    obtain ⟨ihE, ihL, ihC, ihLoop, ihCall, ihBody, ihGen, ihPull, ihDrain⟩ := ih
     have hal := h.alloc
-    have hst := h.store'
     have hap := h.doAppend'
     have hfs := h.frameSet
-    refine ⟨?_, ?_, ?_, ?_, ?_, ?_⟩
-    · intro sc e st hp
+    have hhs := h.heapSet
+    have hcur := h.cur
+    have hns := h.nsopApply'
+    have hsi := h.doSetItem'
+    refine ⟨?_, ?_, ?_, ?_, ?_, ?_, ?_, ?_, ?_⟩
+    · intro a ha sc e st hp
+      have hst := h.store' ha
+      have ihE := ihE a ha
+      have ihL := ihL a ha
+      have ihCall := ihCall a ha
+      have ihLoop := ihLoop a ha
+      have ihDrain := ihDrain a ha
       unfold evalExpr
       cases e with
       | comp gen elt clauses =>
@@ -84,22 +143,109 @@ theorem eval_inv (h : Inv a P) : ∀ fuel,
             · split
               · grind
               · grind
+      | gen elt clauses =>
+        simp only []
+        split
+        · exact hp
+        · split
+          · grind
+          · split
+            · grind
+            · grind
+      | drain e1 =>
+        simp only []
+        split
+        · grind
+        · split
+          · split
+            · grind
+            · grind
+          · split
+            · grind
+            · split
+              · grind
+              · grind
+      | nsop m k e1 =>
+        simp only []
+        split
+        · split
+          · grind
+          · grind
+        · grind
       | _ => grind
-    · intro sc es st hp
+    · intro a ha sc es st hp
+      have ihE := ihE a ha
+      have ihL := ihL a ha
       unfold evalList
       grind
-    · intro sc cs st hp
+    · intro a ha sc cs st hp
+      have ihE := ihE a ha
+      have ihC := ihC a ha
       unfold evalConds
       grind
-    · intro sc fr elt t cs rest src i acc st hp
+    · intro a ha sc fr elt t cs rest src i acc st hp
+      have ihE := ihE a ha
+      have ihC := ihC a ha
+      have ihLoop := ihLoop a ha
       unfold compLoop
       repeat' split
       all_goals grind
-    · intro ex bs vf vs st hp
+    · intro a ha ex vf vs st hp
       unfold callFn
-      grind
-    · intro sc body st hp
+      split
+      · exact hp
+      · split
+        · exact hp
+        · rename_i a' htg
+          have ha' := target_live ha _ _ htg
+          have ihE := ihE a' ha'
+          have ihBody := ihBody a' ha'
+          split
+          · exact hp
+          · simp only []
+            split
+            · rename_i heq
+              exact hcur _ _ (step heq (ihBody _ _ _ (hal _ _ (hcur _ _ hp))))
+            · rename_i heq
+              have h1 := step heq (ihBody _ _ _ (hal _ _ (hcur _ _ hp)))
+              exact hcur _ _ (ihE _ _ _ h1)
+    · intro a ha sc body st hp
+      have hst := h.store' ha
+      have ihE := ihE a ha
+      have ihBody := ihBody a ha
       unfold runBody
+      grind
+    · intro a ha sc fr elt cls stack st hp
+      have ihE := ihE a ha
+      have ihC := ihC a ha
+      have ihGen := ihGen a ha
+      unfold genLoop
+      repeat' split
+      all_goals grind
+    · intro a ha r st hp
+      unfold pullGen
+      split
+      · split
+        · exact hp
+        · exact hp
+        · split
+          · exact hp
+          · rename_i a' htg
+            have ha' := target_live ha _ _ htg
+            have ihGen := ihGen a' ha'
+            simp only []
+            split
+            · rename_i heq
+              exact hhs _ _ _ (hcur _ _ (step heq (ihGen _ _ _ _ _ _ (hhs _ _ _ (hcur _ _ hp)))))
+            · rename_i heq
+              exact hhs _ _ _ (hcur _ _ (step heq (ihGen _ _ _ _ _ _ (hhs _ _ _ (hcur _ _ hp)))))
+            · rename_i heq
+              exact hhs _ _ _ (hcur _ _ (step heq (ihGen _ _ _ _ _ _ (hhs _ _ _ (hcur _ _ hp)))))
+      · exact hp
+    · intro a ha r acc st hp
+      have ihPull := ihPull a ha
+      have ihDrain := ihDrain a ha
+      unfold drainGen
       grind
 
 end Pypyr.PyNs
